@@ -547,6 +547,7 @@ def run(repo: Repo, ctx) -> None:
     _r10(repo, ctx)
     _r11(repo, ctx)
     _r12(repo, ctx)
+    _r13(repo, ctx)
 
 
 OBJS = 'edb.schema.objects'
@@ -1099,3 +1100,72 @@ def _r12(repo: Repo, ctx) -> None:
     if n < 2:
         raise AnalysisError('C04.R12: the delcanon guard of DeleteObject '
                             'not found')
+
+
+
+def _r13(repo: Repo, ctx) -> None:
+    """C04.R13 a rebase re-derives the inheritance of the whole subtree.
+    `ancestors` is stored per object; after the bases of T change, every
+    transitive descendant's stored ancestors (and inherited refdicts) are
+    stale until recomputed.  The rebase command recomputes its own object
+    and then walks a collection of other objects doing the same; that
+    collection has to be the descendants closure (or the walk has to
+    recurse), not the direct children."""
+    ctx.floor('C04.R13', 2)
+    INH = 'edb.schema.inheriting'
+    cls = repo.cls(f'{INH}.RebaseInheritingObject')
+    fin = repo.find_method(cls.qualname, '_alter_finalize')
+    if fin is None:
+        raise AnalysisError('C04.R13: RebaseInheritingObject.'
+                            '_alter_finalize not found')
+    ctx.saw(fin)
+    calls = [c for c in ast.walk(fin.node) if isinstance(c, ast.Call)
+             and isinstance(c.func, ast.Attribute)
+             and c.func.attr == '_recompute_inheritance']
+    own = [c for c in calls if norm(c.func.value) == 'self']
+    ctx.ob('C04.R13', 'rebase:recomputes-own-inheritance', bool(own),
+           'the rebase command no longer recomputes the inheritance '
+           '(ancestors, inherited fields) of the object whose bases changed',
+           fin.loc, sample='self._recompute_inheritance(schema, context)')
+    loops = [l for l in ast.walk(fin.node) if isinstance(l, ast.For)
+             and any(c in calls and norm(c.func.value) != 'self'
+                     for st in l.body for c in ast.walk(st))]
+    if not loops:
+        raise AnalysisError('C04.R13: the loop that recomputes the '
+                            'inheritance of other objects after a rebase '
+                            'was not found')
+    defs = {}
+    for st in ast.walk(fin.node):
+        if isinstance(st, ast.Assign) and len(st.targets) == 1 and \
+                isinstance(st.targets[0], ast.Name):
+            defs.setdefault(st.targets[0].id, []).append(st.value)
+
+    def attrs_of(e, depth=3):
+        out = set()
+        for x in ast.walk(e):
+            if isinstance(x, ast.Call) and isinstance(x.func, ast.Attribute):
+                out.add(x.func.attr)
+            if depth and isinstance(x, ast.Name) and x.id in defs:
+                for v in defs[x.id]:
+                    out |= attrs_of(v, depth - 1)
+        return out
+    for l in loops:
+        at = attrs_of(l.iter)
+        closure = any('descendants' in a for a in at)
+        direct = any(a in ('children', 'get_children', 'direct_children')
+                     for a in at)
+        recursive = any(
+            isinstance(c, ast.Call) and isinstance(c.func, ast.Attribute)
+            and c.func.attr in ('_alter_finalize', '_propagate_rebase')
+            for st in l.body for c in ast.walk(st))
+        if not closure and not direct:
+            raise AnalysisError(f'C04.R13: cannot tell what the rebase '
+                                f'loop iterates over: {norm(l.iter)[:60]}')
+        ctx.ob('C04.R13', 'rebase:walks-descendant-closure',
+               closure or recursive,
+               f'after a rebase only `{norm(l.iter)[:60]}` get their '
+               f'inheritance recomputed: deeper descendants keep the '
+               f'ancestors (and inherited pointers) they had before, so '
+               f'`ancestors`, `descendants()` and the refdicts disagree with '
+               f'the bases', f'{fin.module.rel()}:{l.lineno}',
+               sample='for d in self.scls.ordered_descendants(schema)')
